@@ -90,17 +90,17 @@ func main() {
 	}
 	vk.Main(&vk.Check{
 		ID:   "C20",
-		Rule: "identifiers: every 128-bit value in the structured subsets (<=2 bits set; <=3 non-zero bytes from {01,7f,80,ff}; 62^k and neighbours; leading-zero-byte counts; top of range) is one case, distinct by value; strings: every string of length <=3 over a 12-character alphabet plus fixed long / overflow strings, distinct by content; non-trivial = every identifier case and every non-empty string",
+		Rule: "identifiers: every 128-bit value in the structured subsets (<=2 bits set, thorough <=3; <=3 non-zero bytes from {01,7f,80,ff}, thorough <=4; 62^k and neighbours; leading-zero-byte counts; top of range) is one case, distinct by value; strings: every string of length <=3 (thorough 4) over a 12-character alphabet, every single-character substitution / insertion / deletion in 4 rendered identifiers, plus fixed long / overflow strings, distinct by content; non-trivial = every identifier case and every non-empty string",
 		Assumptions: []string{
 			"bounded subset of the 2^128 identifier space; the remaining values rest on the arithmetic argument that 22 base-62 digits cover 2^128 and the rendering is left-padded",
 			"math/big, crypto/sha1 and regexp are trusted",
 		},
 		Bounds: map[string]any{
-			"id_bits_set":        "<=2",
-			"id_nonzero_bytes":   "<=3 over {01,7f,80,ff}",
+			"id_bits_set":        "<=2 (quick), <=3 (thorough)",
+			"id_nonzero_bytes":   "<=3 (quick), <=4 (thorough) over {01,7f,80,ff}",
 			"powers_of_62":       "62^k, 62^k±1, k<=21",
 			"string_alphabet":    "0 9 A Z a z + - _ space é NUL",
-			"string_max_len":     3,
+			"string_max_len":     "3 (quick), 4 (thorough); plus every 1-character substitution / insertion / deletion in 4 rendered identifiers over 14 (quick) / 130 (thorough) characters",
 			"hash_inputs":        "namespaces × input lists over {\"\",a,b,ab} up to 3 inputs",
 		},
 		Isolate: false,
@@ -131,6 +131,20 @@ func run(r *vk.Runner) {
 			doID(b, "bits=2")
 		}
 	}
+	if !r.Quick() {
+		// thorough: every value with exactly 3 bits set
+		for i := 0; i < 128; i++ {
+			for j := i + 1; j < 128; j++ {
+				for k := j + 1; k < 128; k++ {
+					var a id62.UUID
+					a[i/8] |= 1 << (7 - i%8)
+					a[j/8] |= 1 << (7 - j%8)
+					a[k/8] |= 1 << (7 - k%8)
+					doID(a, "bits=3")
+				}
+			}
+		}
+	}
 	r.Family("ids-bytes")
 	vals := []byte{0x01, 0x7f, 0x80, 0xff}
 	for i := 0; i < 16; i++ {
@@ -148,6 +162,15 @@ func run(r *vk.Runner) {
 							c := b
 							c[k] = vkk
 							doID(c, "bytes=3")
+							if !r.Quick() {
+								for l := k + 1; l < 16; l++ {
+									for _, vl := range vals {
+										d := c
+										d[l] = vl
+										doID(d, "bytes=4")
+									}
+								}
+							}
 						}
 					}
 				}
@@ -217,6 +240,17 @@ func run(r *vk.Runner) {
 			}
 		}
 	}
+	if !r.Quick() {
+		for _, a := range alpha {
+			for _, b := range alpha {
+				for _, c := range alpha {
+					for _, d := range alpha {
+						strs = append(strs, a+b+c+d)
+					}
+				}
+			}
+		}
+	}
 	maxS := new(big.Int).Sub(max, big.NewInt(1)).Text(62)
 	overS := max.Text(62)
 	long := []string{
@@ -264,6 +298,51 @@ func run(r *vk.Runner) {
 	r.Family("parse-long")
 	for _, s := range long {
 		parseCase(s, "long")
+	}
+	// near-valid strings: every single-character substitution, deletion and insertion in rendered identifiers
+	r.Family("parse-near-valid")
+	{
+		subs := []string{"0", "1", "9", "A", "Z", "a", "z", "-", "_", "+", " ", "é", "\x00", "/"}
+		if !r.Quick() {
+			subs = nil
+			for c := 0; c < 128; c++ {
+				subs = append(subs, string(rune(c)))
+			}
+			subs = append(subs, "é", "\xff")
+		}
+		var bases []string
+		var top id62.UUID
+		for i := range top {
+			top[i] = 0xff
+		}
+		var mid id62.UUID
+		mid[0] = 0x80
+		var low id62.UUID
+		low[15] = 1
+		for _, id := range []id62.UUID{top, mid, low, zero} {
+			bases = append(bases, id.String())
+		}
+		done := map[string]bool{}
+		for _, base := range bases {
+			for pos := 0; pos <= len(base); pos++ {
+				var variants []string
+				if pos < len(base) {
+					variants = append(variants, base[:pos]+base[pos+1:])
+				}
+				for _, c := range subs {
+					variants = append(variants, base[:pos]+c+base[pos:])
+					if pos < len(base) {
+						variants = append(variants, base[:pos]+c+base[pos+1:])
+					}
+				}
+				for _, v := range variants {
+					if !done[v] {
+						done[v] = true
+						parseCase(v, "near")
+					}
+				}
+			}
+		}
 	}
 	// explicit: the smallest overflowing numeral must be rejected, the largest fitting accepted
 	r.Do("overflow-boundary", func(t *vk.T) {
